@@ -1344,6 +1344,8 @@ TRUSTED = [
     'C06b: induction hypothesis of the DAG argument: every dependency delivers an array of the shape and kind it announces (this contract at the child)',
     'C06b: dependence on arguments: the value of a node is a function of the values of its dependencies (evalf / generated code receive nothing else), so the set of '
     'arguments a node depends on is contained in the union over its dependencies; a Loop binds its own index (pyvc/symset.py: sets of objects by identity, exact connectives)',
+    'C06b: value meaning of the nodes loop_concatenate builds: InsertAxis(x, n) = n copies of x, _SizesToOffsets = numpy.cumsum([0, *sizes]) (L-CUMSUM: recurrence + monotone for '
+    'sizes >= 0; constant sizes: k*c), Take(v, i) = v[i], LoopConcatenate of one-element chunks = the vector of the per-iteration values (cross-checked in native/axioms.py)',
     'C06b: DataClass equality is structural: `_LoopIndex(loop_id, length)` built by Loop.index equals the index node the body refers to',
 ]
 ASSUMPTIONS = [
@@ -1361,15 +1363,15 @@ ASSUMPTIONS = [
 ]
 NOT_COVERED = [
     'C06b: node classes without a metadata contract: Constant, Zeros, Singular, Guard, Sampled, Eig, ArrayFromTuple, Orthonormal, Assemble, Transform*, Monomial, Elemwise, '
-    'CompressIndices, Multiply/Add/Power/Sign (Pointwise-like, own shape logic), WithDerivative shape, NormDim, InRange, Argument._compile (C13)',
+    'CompressIndices, NormDim, InRange, Argument._compile (C13); the in-place fused `_compile_with_out` path of Add',
     'C06b: ranks > 3, Einsum with more than 3 operands, Inflate with dofmap rank > 2',
-    'C06b: loop_concatenate / _SizesToOffsets value logic (start/stop/concat_length consistency is an assumption)',
+    'C06b: LoopConcatenate nodes NOT built by loop_concatenate (the node-level contract assumes start/stop/concat_length consistency; the helper-level contract does not)',
     'C06b: that the generated source text evaluates to what the eager interpretation computes (C02), _compile_with_out fusion paths other than the ones the node itself takes, '
     '_optimized_for_numpy replacements',
     'C06b: function.Array subclasses (every constructor that fills the shape/dtype/arguments tables: C07 shapes, C13 arguments); lowering agreement '
     '(debug_flags.lower assertions); clashing arguments are rejected by function._join_arguments (C13)',
     'C06b: PARKED (fail on the unchanged tree, candidate defects, notes/C06-c06b.md): FloorDivide of complex operands announces complex but numpy has no such loop; '
-    'function.Array.__init__ accepts negative lengths and arbitrary dtype objects',
+    'Sign of a boolean array announces bool but numpy.sign has no such loop; function.Array.__init__ accepts negative lengths and arbitrary dtype objects',
 ]
 
 
